@@ -156,6 +156,21 @@ CHECKS["C17"] = dict(
          "than the plans (quick: 3 calls + close, 3 calls + early stop + 2 calls + close; <= 3 iterations per close) are outside the claim. Reference rules of "
          "these programs are hand-written (corpus/models/META.json). Trusted as for C01.")
 
+CHECKS["C11"] = dict(
+    technique="bounded verification by SAT of the diagnostic leaf kernels interpreted from source with a string profile (texts = symbolic byte arrays of symbolic length); counterexamples replayed against the real functions compiled into a scratch crate",
+    text="Leaf kernels only. whipe_comments (build.rs), line_locations / intersecting_line_locations / <SourceDisplay as Display>::fmt (source_display.rs), "
+         "Location::{is_empty,intersect} (grammar_util.rs) and the location arithmetic of From<ParseError> (error.rs) are executed symbolically for every "
+         "well-formed UTF-8 text of at most L bytes over {a, /, space, LF, CR, e-acute} and every location the front end can report on the wiped text "
+         "(token / node span, end of file, invalid token). The solver shows: fmt reaches no panic (explicit panic!, unwrap, slice bounds and char "
+         "boundaries); every slice of the original text it prints is a complete line; some printed line contains the start of the location; "
+         "whipe_comments keeps every non-blank byte at its offset and never lengthens the text. The string built-ins of the executor are validated on "
+         "every run against the natively compiled real functions on random texts. NOT claimed: the lalrpop lexer / parser, the semantic checks and their "
+         "location look-ups, formatting, termination of the front end -- `never panics or hangs for arbitrary source text` is therefore decided only for "
+         "the diagnostic path, given the stated shape of locations.",
+    design_ref="§4 C11, §9",
+    note="Bounds: L = 4, 5 (quick); 4..7 (thorough). Assumed (lalrpop): token spans are non-empty ranges of non-blank chars on char boundaries inside the wiped "
+         "text; the EOF location is its length. Two genuine defects found by this check were repaired (fix: commits, see known_findings.json).")
+
 NOT_APPLICABLE = {
     "C02": "check not built yet (ghost-model soundness lemma planned, DESIGN.md §9)",
     "C03": "check not built yet (follows from C01 + C02 lemmas; idempotence lemma planned)",
